@@ -157,7 +157,7 @@ Qed.
     Within one layer the assigned glif names, and within one font the directories of the
     non-default layers, are pairwise distinct even when compared through [lower]; all layer
     directories are distinct as they are.  After ANY history of operations on a new font (or
-    on any font that satisfies the invariant, e.g. one loaded from a well-formed tree) that
+    on any font that satisfies the invariant, e.g. any loaded font) that
     does not use the raw entry access and did not panic. *)
 Theorem C07_distinct : forall is_upper lower ops s s',
   Inv lower s -> clean is_upper lower s ops -> run is_upper lower s ops = Some s' -> distinct_paths lower s'.
@@ -165,9 +165,8 @@ Proof. exact distinct_over_histories. Qed.
 Theorem C07_distinct_new_font : forall is_upper lower ops s',
   clean is_upper lower init ops -> run is_upper lower init ops = Some s' -> distinct_paths lower s'.
 Proof. intros iu lo ops s' Hc Hr. exact (distinct_over_histories iu lo ops init s' (inv_init lo) Hc Hr). Qed.
-Theorem C07_distinct_loaded : forall lower d s,
-  wf_disk lower d -> load lower d = Some s -> distinct_paths lower s.
-Proof. intros lo d s Hw Hl. exact (inv_distinct lo s (inv_loaded lo d s Hw Hl)). Qed.
+Theorem C07_distinct_loaded : forall lower d s, load lower d = Some s -> distinct_paths lower s.
+Proof. intros lo d s Hl. exact (inv_distinct lo s (inv_loaded lo d s Hl)). Qed.
 Example C07_distinct_nonvacuous :
   let ops := [InsertGlyph DEFAULT_LAYER_NAME nA; InsertGlyph DEFAULT_LAYER_NAME [97;95]%N; NewLayer nA; NewLayer [97;95]%N] in
   exists s', run ascii_is_upper ascii_lower init ops = Some s' /\
